@@ -237,7 +237,8 @@ def parallel_map(ctx, fn, items: List[Any], jobs: int = 12) -> List[Any]:
     results); the results in order.  An AnalysisError in a worker is raised here."""
     import multiprocessing
     import os
-    if len(items) < 4 or os.environ.get("NQSA_SERIAL"):
+    if len(items) < 4 or os.environ.get("NQSA_SERIAL") or multiprocessing.current_process().name != "MainProcess":
+        # (a worker of the self-test / of a re-evaluation already is one of many processes)
         return [fn(ctx, it) for it in items]
     _FORK_STATE.update({"fn": fn, "ctx": ctx, "items": items})
     try:
